@@ -264,6 +264,24 @@ func runC08(c *Ctx) {
 			run(fmt.Sprintf("N%d.F%d.H", n, f), rq, cf, vrt.Budget{F: f})
 		}
 	}
+	// two faults on a small alphabet: a subscribe whose SUBACK is lost, then a second connection loss
+	focus := []c08Sym{{"sub", []string{"b:1"}}, {"sub", []string{"a:1", "b:2"}}, {"unsub", []string{"b"}}, {"p1", nil}}
+	for _, x := range focus {
+		for _, y := range focus {
+			reqs := []rcReq{{Kind: x.kind, Subs: x.subs, Phase: 'S'}, {Kind: y.kind, Subs: y.subs, Phase: 'S'}}
+			for i := range reqs {
+				if reqs[i].Kind == "p1" {
+					reqs[i].Tag = fmt.Sprintf("m%d", i+1)
+				}
+			}
+			if x.kind == "p1" && y.kind == "p1" {
+				continue
+			}
+			for _, cf := range []conf{{false, false, false}, {true, true, false}} {
+				run("N2.F2.focus", reqs, cf, vrt.Budget{F: 2})
+			}
+		}
+	}
 	if n3 {
 		// quick tier: length 3 without publishes, default configuration only, one fault
 		for _, reqs := range c08Workloads(3, 'S') {
